@@ -91,7 +91,7 @@ func smtFile(hyps []*Term, goal *Term, opts string, getModel bool, extra string)
 		}
 	}
 	for _, k := range sortedKeys(syms) {
-		fmt.Fprintf(&b, "(declare-fun %s () %s)\n", k, syms[k])
+		fmt.Fprintf(&b, "(declare-fun |%s| () %s)\n", k, syms[k])
 	}
 	for _, h := range hyps {
 		if h.IsTrue() {
